@@ -361,7 +361,8 @@ def eval_cases(ctx, cases):
             for key, bad, what in (
                     ("not-exact", not o["exact"] or bool(o["bad"]),
                      "the emitted pairs do not select exactly the requested cores once each under the documented "
-                     "region word%s" % (" (x, y, p, expected, selected by) = %r" % o["bad"] if o["bad"] else "")),
+                     "region word%s" % (" (before shrinking: (x, y, p, expected, selected by) = %r)" % o["bad"]
+                                        if o["bad"] else "")),
                     ("not-increasing", not o["sorted"],
                      "the emitted pairs are not in strictly increasing (region, core mask) order")):
                 if not bad:
@@ -399,7 +400,7 @@ def run(ctx):
         "the enumerating oracle exactB (expansion of every word through chipsOf, proved equal to `selects` by "
         "chipsOf_spec, compared as sorted lists) is not itself proved equivalent to `Exact`; it is cross-checked on "
         "every case by evaluating the literal `countSel` on sampled targets and non-targets"]
-    n = ctx.scale(1500, 24000)
+    n = ctx.scale(1500, 20000)
     nreg = ctx.scale(3000, 0)
     if ctx.extended:
         n *= 4
